@@ -295,3 +295,82 @@ if __name__ == "__main__":
         tr, crash, anomalies = run_script(m, s)
         out.append(dict(trace=tr, crash=crash, anomalies=anomalies))
     json.dump(out, sys.stdout)
+
+
+def run_long(mod, start_fn, period, nticks, every=256, windows=()):
+    """A very long uninterrupted run of the real worker (more than one hyperframe of ticks) on
+    virtual time with an instantaneous handler.  Logged sparsely: every `every`-th tick, every
+    tick inside the given windows of tick indices, every indication and every overrun warning;
+    a logged tick carries the number of ticks (k) and the virtual time (dt, ns) since the
+    previously logged tick, so all numbers stay small."""
+    rig = Rig(t0=0, max_waits=nticks + 10)
+    saved = (mod.time, mod.threading)
+    mod.time = FakeTime(rig)
+    mod.threading = make_threading(rig)
+    root = logging.getLogger()
+    state = dict(i=0, last_i=0, last_ns=0, ind=0)
+    ev = []
+
+    class Warn(logging.Handler):
+        def emit(self, record):
+            try:
+                msg = record.getMessage()
+            except Exception:
+                msg = str(record.msg)
+            if "overrun" in msg:
+                ev.append(dict(e="overrun", i=state["i"] % (2 ** 30)))
+    h = Warn(level=logging.WARNING)
+    root.addHandler(h)
+    old_level = root.level
+    if root.level > logging.WARNING or root.level == logging.NOTSET:
+        root.setLevel(logging.WARNING)
+
+    class Link:
+        def send(self, payload):
+            raw = payload.encode() if isinstance(payload, str) else bytes(payload)
+            state["ind"] += 1
+            state["last_ind"] = list(raw)
+
+        def sendto(self, payload, remote):
+            self.send(payload)
+
+    wins = sorted(windows)
+
+    def in_window(i):
+        for lo, hi in wins:
+            if lo <= i <= hi:
+                return True
+        return False
+
+    crash = None
+    try:
+        gen = mod.CLCKGen([Link()], clck_start=start_fn, ind_period=period)
+
+        def handler(fn):
+            i = state["i"]
+            if i % every == 0 or in_window(i):
+                ev.append(dict(e="tick", fn=fn, k=i - state["last_i"], dt=rig.ns - state["last_ns"],
+                               inds=state["ind"], first=(i == 0)))
+                state["last_i"], state["last_ns"], state["ind"] = i, rig.ns, 0
+            state["i"] = i + 1
+        gen.clck_handler = handler
+
+        def on_wait(dt):
+            if state["i"] >= nticks:
+                return 0, True
+            return dt, False
+        rig.on_wait = on_wait
+        gen.start()
+        try:
+            gen.stop()
+        except Exception:
+            pass
+    except RigError:
+        raise
+    except Exception as e:
+        crash = "%s: %s" % (type(e).__name__, e)
+    finally:
+        root.removeHandler(h)
+        root.setLevel(old_level)
+        mod.time, mod.threading = saved
+    return dict(ev=ev, crash=crash, ticks=state["i"], T=rig.T)
